@@ -1,0 +1,20 @@
+/*
+ * Verification hooks (add-only, inert unless LIBOPNMIDI_VERIF is defined).
+ *
+ * VERIF_LOOP(id)   sits between a loop header and its body; with the guard on it expands to the loop
+ *                  contract text that the verification harness supplies for <id>.
+ * VERIF_GHOST(d)   a ghost declaration/statement that only the verifier sees.
+ *
+ * With the guard off both expand to nothing, so the compiled code is unchanged.
+ */
+#ifndef OPNMIDI_VERIF_H
+#define OPNMIDI_VERIF_H
+
+#ifdef LIBOPNMIDI_VERIF
+#   include "opnmidi_verif_contracts.h" /* supplied on the include path of the verification harness */
+#else
+#   define VERIF_LOOP(id)
+#   define VERIF_GHOST(decl)
+#endif
+
+#endif /* OPNMIDI_VERIF_H */
